@@ -10,7 +10,7 @@ import (
 )
 
 type iterator struct {
-	client   gen.KV_TxClient
+	tx       *transaction
 	cursorID uint32
 	logger   log.StructuredLogger
 	currentK []byte
@@ -26,15 +26,11 @@ func (i *iterator) doOpAndUpdate(op gen.Op, k []byte) error {
 	i.currentK = nil
 	i.currentV = nil
 
-	if err := i.client.Send(&gen.Cursor{
+	pair, err := i.tx.exchange(&gen.Cursor{
 		Op:     op,
 		Cursor: i.cursorID,
 		K:      k,
-	}); err != nil {
-		return err
-	}
-
-	pair, err := i.client.Recv()
+	})
 	if err != nil {
 		return err
 	}
